@@ -378,6 +378,16 @@ func VerifC09_HTTPResponse() {
 func VerifC09_HTTPRequest() {
 	format := rt.U8("format")
 	req := &http.Request{Header: http.Header{}}
+	// the request may already carry a content type: a default set by the
+	// caller, or that of an earlier dump in another format into the same request
+	switch rt.Choice("earlier-content-type", 3) {
+	case 1:
+		req.Header.Set("Content-Type", "application/json")
+	case 2:
+		if DumpToHTTPRequest(req, symValue(), YAML) != nil {
+			return
+		}
+	}
 	v := symValue()
 	err := DumpToHTTPRequest(req, v, format)
 	if err != nil {
